@@ -3,7 +3,9 @@
 (* Trace validation of save / reload on the real generator.App (C12).      *)
 (* Lines:  {"k":"reset"}                                                   *)
 (*         {"k":"step","st":{op,a,b,c},"ok":..,"loadok":..,"orig":proj,    *)
-(*          "reload":proj,"h1":[..],"h2":[..]}                             *)
+(*          "reload":proj,"h1":[..],"h2":[..],"skip":bool}                 *)
+(* skip = the application was neither saved nor evaluated after this step  *)
+(* (sparse observation: several edits between two evaluations).            *)
 (* proj = [nodes (sorted by id: id,type,name,desc,val,single,arr), prod,   *)
 (*         meta, metajson, arts, unknown]; orig is the application after   *)
 (* the edit, reload a FRESH application that loaded orig's saved bytes;    *)
@@ -36,8 +38,13 @@ ModelCore(gr) == [nodes |-> ModelNodes(gr), prod |-> gr.prod, meta |-> gr.meta]
 
 TReset == l <= Len(Trace) /\ Trace[l].k = "reset" /\ g' = Empty /\ hist' = hist /\ l' = l + 1
 
+TSkip ==     \* a step after which the application was not observed: only the model moves
+    /\ l <= Len(Trace) /\ Trace[l].k = "step" /\ Trace[l].skip
+    /\ g' = (IF Enabled(g, Trace[l].st) THEN Apply(g, Trace[l].st) ELSE g)
+    /\ hist' = hist /\ l' = l + 1
+
 TStep ==
-    /\ l <= Len(Trace) /\ Trace[l].k = "step"
+    /\ l <= Len(Trace) /\ Trace[l].k = "step" /\ ~Trace[l].skip
     /\ LET ln == Trace[l]
            en == Enabled(g, ln.st)
            g2 == IF en THEN Apply(g, ln.st) ELSE g
@@ -61,7 +68,7 @@ TFile ==     \* shipped graph files: load -> save -> load -> save
        IN IF bad = {} THEN TRUE ELSE PrintT(ToJson([l |-> l, bad |-> bad, enabled |-> TRUE]))
     /\ UNCHANGED <<g, hist>> /\ l' = l + 1
 
-TNext == TReset \/ TStep \/ TFile
+TNext == TReset \/ TStep \/ TSkip \/ TFile
 TSpec == TInit /\ [][TNext]_tvars
 TraceAccepted == TLCGet("stats").diameter - 1 = Len(Trace)
 =============================================================================
